@@ -562,6 +562,60 @@ def restart(vc):
     vc.ensure("O-C01-restart.burn-switch-cannot-refire", vc.And(len(starts) == 2, g is not None and g > 0))
 
 
+@obligation("C01", "handover", ensures=["O-C01-handover.every-due-impulse-reaches-the-integrator"],
+            fns=[CEL + "Celestial.propagate", CEL + "Celestial._prepEvents"], mode="R", assumes=IVP,
+            note="every impulse of the queue whose time lies in the CLOSED propagation interval [t0, tf] - one strictly inside, one exactly at tf (a step boundary: pruning removes it before the "
+                 "next step, so this is its only chance), one exactly at t0 - is among the event functions handed to the integrator, as the queued object itself")
+def handover(vc):
+    t0 = vc.real("t0", 0, 1e6)
+    span = vc.real("span", 1, 1e4)
+    frac = vc.real("frac", 0.01, 0.99)
+    tf = t0 + span
+    handed = []
+
+    def solve_ivp_contract(fun, t_span, y0, method=None, rtol=None, atol=None, events=None, **kw):
+        handed.append(list(events or []))
+        y = np.asarray(y0).reshape(-1, 1)
+        return _NS(y=y, t=np.array([t_span[0], t_span[1]], dtype=object if vc.symbolic else float), t_events=[np.array([]) for _ in (events or [])], status=0, success=True)
+    vc.install(CEL + "@solve_ivp", solve_ivp_contract)
+    x0 = np.array([7000.0, 0, 0, 0, 7.5, 0])
+    times = [t0 + frac * span, tf, t0]
+    if vc.symbolic:
+        import resonaate.dynamics.integration_events.finite_thrust as ft
+        vc.stub(CEL + "@isinstance", lambda o, t: False if t is ft.ScheduledFiniteThrust else isinstance(o, t))
+        imps = [vc.new(DI + "ScheduledECIImpulse", time=t, thrust=np.zeros(6), agent_id=1) for t in times]
+        dyn = vc.new("resonaate.dynamics.special_perturbations:SpecialPerturbations", finite_thrust=None, _method="RK45", _differentialEquation=lambda *a, **k: None)
+    else:
+        from resonaate.dynamics.two_body import TwoBody
+        from resonaate.dynamics.integration_events.scheduled_impulse import ScheduledECIImpulse
+        imps = [ScheduledECIImpulse(t, np.zeros(3), 1) for t in times]
+        dyn = TwoBody()
+    dyn.propagate(t0, tf, x0.copy(), scheduled_events=list(imps))
+    vc.ensure("O-C01-handover.every-due-impulse-reaches-the-integrator", len(handed) >= 1 and all(any(e is imp for e in handed[0]) for imp in imps))
+
+
+SBLD = "resonaate.scenario.scenario_builder:"
+
+
+@obligation("C01", "load_events", ensures=["O-C01-load.every-configured-event-once"], fns=[SBLD + "ScenarioBuilder._loadEventsIntoDatabase"], mode="Z",
+            bounded="four configured events: two of one kind, scope, instance and interval that differ only in WHAT they are about (two targets added at the same instant), and two more",
+            note="every configured event becomes exactly one stored event, built from its own configuration (events of the same kind at the same time for the same handler are different events "
+                 "when they name different agents), inserted in order of start time")
+def load_events(vc):
+    from datetime import datetime
+    t1, t2 = datetime(2021, 3, 30, 16, 5), datetime(2021, 3, 30, 16, 10)
+    cfgs = [_NS(tag="add-target-11", event_type="target_addition", scope="scenario_step", scope_instance_id=0, start_time=t1, end_time=t1, getDataDependencies=lambda: []),
+            _NS(tag="add-target-12", event_type="target_addition", scope="scenario_step", scope_instance_id=0, start_time=t1, end_time=t1, getDataDependencies=lambda: []),
+            _NS(tag="priority-a", event_type="task_priority", scope="task_reward_generation", scope_instance_id=3, start_time=t1, end_time=t2, getDataDependencies=lambda: []),
+            _NS(tag="priority-b", event_type="task_priority", scope="task_reward_generation", scope_instance_id=3, start_time=t1, end_time=t2, getDataDependencies=lambda: [])]
+    inserted = []
+    db = _NS(getData=lambda *a, **k: None, insertData=lambda *rows: inserted.extend(rows))
+    vc.install(SBLD + "@Event", _NS(concreteFromConfig=lambda c: ("EVENT-OF", c.tag)))
+    b = vc.new(SBLD + "ScenarioBuilder", _config=_NS(events=list(cfgs)), logger=_NS(debug=lambda *a: None, info=lambda *a: None, warning=lambda *a: None))
+    b._loadEventsIntoDatabase(db)
+    vc.ensure("O-C01-load.every-configured-event-once", sorted(inserted) == sorted(("EVENT-OF", c.tag) for c in cfgs))
+
+
 # an impulse that already fired is removed by pruning BEFORE the propagation job is built: the job construction contract (C10 truth_job: the submission carries the
 # queue as it is after pruning) is re-checked in this property's own run
 from pyvc.harness import share as _share  # noqa: E402
